@@ -673,8 +673,9 @@ class _IsotxsNuclideIO:
             ju = min(ng, jup)
 
             metadata = self._metadata
-            # the rows above (and below, see the end) this sub-block hold nothing
-            indptr = [0] * jl
+            # the rows above (and below, see the end) this sub-block hold nothing; with more
+            # sub-blocks than groups the trailing sub-blocks lie wholly beyond the last group
+            indptr = [0] * min(jl, ng + 1)
             indices = []
             dataVals = []
             for _scatterLoopOrder in range(lordn):
